@@ -56,13 +56,35 @@ def run_sequence(ctx, rng):
                       "files": [], "trees": []})
     trace, viol = [], []
     wsn = 0
+    staged_ws = {}
     try:
         for step in range(rng.randrange(3, 10)):
             r = rng.random()
             i = rng.randrange(n)
             sp = specs[i]
             odb = sp["odb"]
-            if r < 0.3:
+            if staged_ws and rng.random() < 0.2:
+                # a staged workspace is staged again after one of its files was replaced the way `rsync -t` / `cp -p` / an
+                # archive extractor does it: other bytes of the same length, the old timestamps, renamed over the path
+                ws = rng.choice(sorted(staged_ws))
+                files = staged_ws[ws]
+                key = rng.choice(sorted(files))
+                fp = os.path.join(ws, *key)
+                st0 = os.stat(fp)
+                new = bytes((b + 1) % 256 if b not in (10, 13) else b for b in files[key]) or b""
+                tmp = fp + ".incoming"
+                with open(tmp, "wb") as f:
+                    f.write(new)
+                os.utime(tmp, ns=(st0.st_atime_ns, st0.st_mtime_ns))
+                os.replace(tmp, fp)
+                files = {**files, key: new}
+                kind, res = safe_call(lambda: _stage(build, transfer, odb, ws, fs, sp["algo"]))
+                trace.append(["restage_after_same_size_replacement", i, len(files), kind if kind == "ok" else res])
+                if kind == "ok":
+                    sp["files"] += list(files.values())
+                    sp["trees"].append(files)
+                    staged_ws[ws] = files
+            elif r < 0.3:
                 files = gen.rand_tree(rng, max_files=5, max_depth=2)
                 if rng.random() < 0.5:
                     files[("crlf.txt",)] = b"line one\r\nline two\r\n" + bytes(rng.choice(b"ab") for _ in range(3))
@@ -86,6 +108,8 @@ def run_sequence(ctx, rng):
                 if kind == "ok":
                     sp["files"] += list(files.values())
                     sp["trees"].append(files)
+                    if ("mixed.bin",) not in files:
+                        staged_ws[ws] = files
             elif r < 0.45:
                 wsn += 1
                 p = os.path.join(root, "single%d" % wsn)
